@@ -21,7 +21,10 @@
 (* product; float type, calling form and the loose tolerance rotate with   *)
 (* the hash, and so does the unit of the target (y * 2^ue, ue in           *)
 (* {0,-10,-14,10}: small and large magnitudes, exact in binary floating    *)
-(* point).  Thin = 1 enumerates the full product.  f32 runs: OLS, and      *)
+(* point).  OLS cases with an intercept carry large per-column offsets    *)
+(* (f32: 2000, 2^11, 2^13, 2^16; f64: 10^5, 10^7, 2^30) and, for p = 2, a   *)
+(* nearly collinear variant.  Thin = 1 enumerates the full product.        *)
+(* f32 runs: half of the OLS cases, and                                    *)
 (* elastic nets on fast-converging designs (see FastConv).                 *)
 (***************************************************************************)
 EXTENDS LinRegRel, Json
@@ -93,12 +96,31 @@ MaxIt(kd, wc) == IF wc THEN 3000 ELSE IF kd = "mtl" THEN 40000 ELSE 100000
 \* (l1 part present, i.e. a loose fit is recorded) and the run is f64.
 UEs == <<0, -10, -14, 10>>
 
-Mk(kd, xx, ym, pp, rr, ic, h, wc, fc) ==
-  LET f32 == (h \div (IF kd = "ols" THEN OThin ELSE CThin)) % F32Mod = 0 /\ (kd = "ols" \/ fc)
+\* OLS with an intercept: large exactly representable per-column offsets (the estimator sees x + off; f32 needs
+\* |x + off| < 2^24).  The spread of the columns stays the small lattice, so [x + off, 1] is ill conditioned
+\* (cond ~ off / spread) while the least-squares problem on the un-shifted integers is exact in the specification.
+OffF32 == <<0, 2000, 2048, 8192, 65536, 2000>>
+OffF64 == <<0, 100000, 10000000, 1073741824, 10000000, 100000>>
+OffOf(f32, q) == IF f32 THEN OffF32[(q % 6) + 1] ELSE OffF64[(q % 6) + 1]
+\* nearly collinear second column for OLS: 30 * first column + second column (a column operation: rank unchanged)
+NearCol(xx) == [i \in 1..Len(xx) |-> <<xx[i][1], 30 * xx[i][1] + xx[i][2]>>]
+
+\* selector decorrelated from the thinning moduli (h is a multiple of them)
+Sel(h, salt, m) == ((((h \div 3) % 100000) * 7919 + salt * 104729) % 1009) % m
+
+Mk(kd, xx0, ym, pp, rr, ic, h, wc, fc) ==
+  LET sel == h \div (IF kd = "ols" THEN OThin ELSE CThin)
+      f32 == IF kd = "ols" THEN Sel(h, 1, 2) = 0 ELSE sel % F32Mod = 0 /\ fc
       lt  == IF kd = "ols" \/ pp[1] = 0 \/ rr[1] = 0 THEN 0 ELSE ((h \div 5) % 4) + 1
+      pn  == Len(xx0[1])
+      near == kd = "ols" /\ pn = 2 /\ Sel(h, 2, 3) = 0 /\ \A i \in 1..Len(xx0) : Abs(xx0[i][1]) <= 2
+      xx  == IF near THEN NearCol(xx0) ELSE xx0
+      offs == IF kd = "ols" /\ ic /\ ~(near /\ f32)      \* nearly collinear + offset is beyond f32 (not resolvable)
+              THEN [k \in 1..pn |-> OffOf(f32, Sel(h, 3 + k, 6))]
+              ELSE [k \in 1..pn |-> 0]
   IN
   [kind |-> kd,
-   inp |-> [x |-> xx, y |-> ym, p |-> Len(xx[1]), t |-> Len(ym[1]),
+   inp |-> [x |-> xx, y |-> ym, p |-> pn, t |-> Len(ym[1]), off |-> offs,
             ln |-> pp[1], ld |-> pp[2], rn |-> rr[1], rd |-> rr[2], icpt |-> ic,
             ft |-> IF f32 THEN "f32" ELSE "f64",
             form |-> Forms[((h \div 3) % 3) + 1],
